@@ -164,6 +164,11 @@ public:
 		// TODO make sure any new context is re-converted
 		// if necessary.
 		auto i = MPD( MapFind(fc) );
+		if (i>=0 && res_var !=
+				GET_CONSTRAINT_KEEPER( FuncConstraint ).GetResultVar(i)) {
+			MPD( MapErase(fc) );   // defines another variable, possibly
+			i = -1;                // one-sided: res_var needs its own
+		}
 		if (i<0)
       i = int( MPD( AddConstraint(std::move(fc)) ) );
 		auto& ck = GET_CONSTRAINT_KEEPER( FuncConstraint );
@@ -1411,6 +1416,20 @@ protected:
     return MPD( MapInsert__Impl(con, i) );
   }
 
+
+  /// MapErase.
+  /// Forget the map entry equal to \a con, if any.
+  template <class Constraint>
+  void MapErase(const Constraint& con) {
+    MPD( MapErase__Impl(con) );
+  }
+
+  /// MapErase__Impl.
+  /// Default version for functional constraints with a map.
+  template <class Constraint>
+  void MapErase__Impl(const Constraint& con) {
+    GET_CONSTRAINT_MAP(Constraint).erase( con );
+  }
 
   /// MapFind__Impl.
   /// Default version for functional constraints with a map.
